@@ -407,7 +407,14 @@ def gen_xlcorpus(outdir, seed, count):
         # new body occurs nowhere in the reference
         with open(os.path.join(outdir, name + ".ref.wasm"), "wb") as f:
             f.write(mref.encode())
-        lines.append("%s.wasm %s.ref.wasm %d %d %s" % (name, name, len(bodies), len(data), ",".join(str(c) for c in changed) or "-"))
+        # functions that MUST be classified dynamic against this reference: their encoded body (locals + code) occurs
+        # nowhere in the reference module (absolute function indices, i.e. including imported functions)
+        def enc(f):
+            _, locs, code = f
+            return vec([uleb(c) + bytes([t]) for c, t in locs]) + code + b"\x0B"
+        refbodies = set(enc(f) for f in mref.funcs)
+        must_dyn = [nimp + k for k, f in enumerate(m.funcs) if enc(f) not in refbodies]
+        lines.append("%s.wasm %s.ref.wasm %d %d %s" % (name, name, len(bodies), len(data), ",".join(str(c) for c in must_dyn) or "-"))
     with open(os.path.join(outdir, "corpus.txt"), "w") as f:
         f.write("\n".join(lines) + "\n")
 
